@@ -12,7 +12,7 @@ def expectedC03 : List (String × String) := [
   ("file:compat.py", "2a259e16acd200bc"),
   ("file:config.py", "142bde514c82c29d"),
   ("file:transform/basics.py", "093d71f68c43a00a"),
-  ("file:transform/conversions.py", "c717da0d8eb0ba94"),
+  ("file:transform/conversions.py", "2209b8de15c75a9f"),
   ("file:transform/dedup.py", "bd5f47cbc6d0c73d"),
   ("file:transform/fills.py", "dd9addc453365c1c"),
   ("file:transform/hashjoins.py", "b948265980fadaea"),
